@@ -991,6 +991,8 @@ func main() {
 		os.Exit(doReplay(os.Args[2]))
 	case "selftest":
 		os.Exit(doSelftest(os.Args[2:]))
+	case "scenario":
+		os.Exit(doScenario(os.Args[2:]))
 	case "props":
 		var ids []string
 		for k := range props {
@@ -1013,4 +1015,99 @@ func perEngineBrief(m map[string]interface{}) map[string]interface{} {
 		}
 	}
 	return out
+}
+
+// ---------------------------------------------------------------- scenario demonstrations
+
+// A scenario is a hand-written engine-B plan with expectations about plain end-of-run observations
+// (client views, stored log, checkpoints, publishes). It is the form in which demonstrations of
+// seeded changes that need a MongoDB are kept (seeded/<id>/scenario.json): it passes on the unchanged
+// tree and fails with the change, and it does not use any oracle of the checks.
+type scenarioFile struct {
+	Property string            `json:"property"`
+	Describe string            `json:"describe"`
+	Config   json.RawMessage   `json:"config"`
+	Events   []json.RawMessage `json:"events"`
+	Expect   map[string]string `json:"expect"`
+}
+
+func doScenario(args []string) int {
+	if len(args) < 1 {
+		harnessFail("usage: verif scenario <file> [-v]")
+	}
+	b, err := os.ReadFile(args[0])
+	if err != nil {
+		harnessFail("%v", err)
+	}
+	var sf scenarioFile
+	if err := json.Unmarshal(b, &sf); err != nil {
+		harnessFail("bad scenario file: %v", err)
+	}
+	var cfg map[string]interface{}
+	_ = json.Unmarshal(sf.Config, &cfg)
+	cfg["observe"] = true
+	if _, ok := cfg["oracles"]; !ok {
+		cfg["oracles"] = map[string]bool{}
+	}
+	cb, _ := json.Marshal(cfg)
+	pi := props[sf.Property]
+	if pi == nil || (pi.Engine != "B" && pi.Also == nil) {
+		harnessFail("scenario needs an engine-B property")
+	}
+	if pi.Engine != "B" {
+		pi = pi.Also
+	}
+	plan := &kernel.Plan{Engine: "B", Property: sf.Property, Seed: 1, Config: cb, Events: sf.Events}
+	scratch, _ := os.MkdirTemp("", "orda-verif.")
+	defer os.RemoveAll(scratch)
+	verbose := len(args) > 1 && args[1] == "-v"
+	outs, err := execPlans(scratch, pi, []*kernel.Plan{plan}, nil, verbose, 1)
+	if err != nil {
+		harnessFail("%v", err)
+	}
+	o := outs[0]
+	if o.Crash != nil {
+		fmt.Printf("SCENARIO FAIL: the process died: %s\n%s\n", o.Crash.Viol.Message, o.Crash.Tail)
+		return 1
+	}
+	if o.Res == nil {
+		harnessFail("no result")
+	}
+	if verbose {
+		for _, l := range o.Res.Log {
+			fmt.Println("  ", l)
+		}
+	}
+	if o.Res.Obs == nil {
+		fmt.Printf("SCENARIO FAIL: the run ended before its observations were taken (violation: %v)\n", o.Res.Violation)
+		return 1
+	}
+	keys := make([]string, 0, len(o.Res.Obs))
+	for k := range o.Res.Obs {
+		keys = append(keys, k)
+	}
+	sort.Strings(keys)
+	if verbose || len(sf.Expect) == 0 {
+		for _, k := range keys {
+			fmt.Printf("  obs %-28s %s\n", k, o.Res.Obs[k])
+		}
+	}
+	bad := 0
+	ek := make([]string, 0, len(sf.Expect))
+	for k := range sf.Expect {
+		ek = append(ek, k)
+	}
+	sort.Strings(ek)
+	for _, k := range ek {
+		if got := o.Res.Obs[k]; got != sf.Expect[k] {
+			bad++
+			fmt.Printf("  MISMATCH %s\n    expected: %s\n    observed: %s\n", k, sf.Expect[k], got)
+		}
+	}
+	if bad > 0 {
+		fmt.Printf("SCENARIO FAIL: %d of %d expectations not met\n", bad, len(sf.Expect))
+		return 1
+	}
+	fmt.Printf("SCENARIO PASS: %d expectations met\n", len(sf.Expect))
+	return 0
 }
